@@ -9,7 +9,7 @@ find_pfn_region, find_mapped_pfn, find_unmapped_pfn and get_pfn_map_bits for ind
 (first,last) ranges near every region and window edge, beyond the highest frame and at 2^64-1.
 Search: every answer of the implementation is judged by the extracted *spec* (engine "pfn-spec":
 "is bit p set" and nothing else)."""
-from .. import core, linesrun
+from .. import core, linesrun, pmap_e2e
 
 M64 = (1 << 64) - 1
 
@@ -198,6 +198,97 @@ def report(run, exe, line):
                       replay, found_input=False, signature="pfn tie")
 
 
+# ---- end-to-end stage (engine "pmap") ----------------------------------------
+
+def e2e_case(run, i, fmt=None):
+    """Case i of this run: reproducible from (seed, i) alone."""
+    import random
+    d = core.os.path.join(run.work, "e2e")
+    core.os.makedirs(d, exist_ok=True)
+    rng = random.Random(run.seed * 7919 + i * 104729 + 17)
+    return pmap_e2e.gen_case(rng, d, i, fmt)
+
+
+def e2e_run(run, exe, lines, tag):
+    model = core.run_model("pmap", run.casefile("pmap-%s.txt" % tag, lines))
+    impl, crashes = linesrun.run_impl_lines(exe, run.work, lines,
+                                            timeout=30 if len(lines) == 1 else (120 if run.tier == "quick" else 1800))
+    ok_idx = [i for i, o in enumerate(impl) if not (o.startswith("CRASH") or o in ("NOT-RUN", "BAD-CASE"))]
+    verd = core.run_model("pmap-spec", run.casefile("pmap-%s-spec.txt" % tag,
+                                                    ["%s # %s" % (lines[i], impl[i]) for i in ok_idx]))
+    spec = {i: v for i, v in zip(ok_idx, verd) if v != "ok"}
+    def differs(m, o):
+        mt, ot = m.split(), o.rsplit(" H=", 1)[0].split()
+        return len(mt) != len(ot) or any(a != "?" and a != b for a, b in zip(mt, ot))
+    tie = [i for i in ok_idx if model[i] != "-" and differs(model[i], impl[i])]
+    return model, impl, crashes, spec, tie
+
+
+def e2e_verdict(run, exe, line):
+    model, impl, crashes, spec, tie = e2e_run(run, exe, [line], "one")
+    return "crash" if crashes else "spec" if spec else "tie" if tie else None
+
+
+def e2e_report(run, exe, line, index):
+    kind0 = e2e_verdict(run, exe, line)
+    if kind0 is None:
+        run.count("unreproducible-disagreement")
+        return
+    head, _, ops = line.partition(" | ")
+    ops = ops.split()
+    if len(ops) > 1 and kind0 != "crash":
+        ops = core.shrink_list(ops, lambda c: e2e_verdict(run, exe, head + " | " + " ".join(c)) == kind0, max_tests=40)
+    small = head + " | " + " ".join(ops)
+    model, impl, crashes, spec, tie = e2e_run(run, exe, [small], "one")
+    short = small.split(" A=")[0] + " ... T " + small.split(" T ")[1] if " A=" in small else small
+    replay = {"engine": "pmap", "index": index, "ops": " ".join(ops), "case": short[:3000], "model": model[0][:2000],
+              "implementation": impl[0][:2000], "spec_verdict": spec.get(0, "ok"),
+              "impl_stderr_tail": crashes[0][1][-1500:] if crashes else "",
+              "how": "bin/check C07 --replay <this file> rebuilds dump #index of this seed with the suite's tools "
+                     "and re-runs the ops through harness/pmap_drv.c (public API)"}
+    if crashes:
+        run.violation("impl", "page maps through the public API: abnormal exit (%s) on: %s" % (crashes[0][0], short[:400]),
+                      replay, found_input=True, signature="pmap crash " + crashes[0][1][-300:])
+    elif spec:
+        run.violation("spec", "page maps through the public API contradict the dump: %s; case: %s"
+                      % (spec[0], short[:500]), replay, found_input=True, signature="pmap spec " + spec[0])
+    else:
+        run.violation("tie", "correspondence pmap (extracted geometry/segment model vs library) broken on: %s"
+                      % short[:400], replay, found_input=False, signature="pmap tie")
+
+
+def e2e_stage(run):
+    exe = run.need_cc("pmap_drv", "pmap_drv.c", sources=core.lib_sources())
+    if exe is None:
+        return
+    n = 70 if run.tier == "quick" else 1500
+    lines = [e2e_case(run, i) for i in range(n)]
+    run.cov["engines"]["pmap"] = {"end_to_end_dumps": n}
+    model, impl, crashes, spec, tie = e2e_run(run, exe, lines, "cases")
+    for l, o in zip(lines, impl):
+        fmt = l.split()[1]
+        run.count("E-" + {"d": "diskdump", "s": "sadump", "e": "elf"}[fmt])
+        if fmt == "d":
+            f = l.split()[2].split(":")
+            bs, bb, mm = int(f[0], 16), int(f[1], 16), int(f[2], 16)
+            cap1 = bs * 8 * (bb // 2)
+            run.count("E-diskdump-max_mapnr-" + ("at-capacity" if mm == cap1 else "capacity-1" if mm == cap1 - 1
+                                                  else "below" if mm < cap1 else "above"))
+            if "," in l.split(" @ ")[1].split(" | ")[0]:
+                run.count("E-diskdump-split-set")
+        ans = o.split()
+        run.count("E-reads-ok", ans.count("ok"))
+        run.count("E-reads-nodata", ans.count("nodata"))
+        run.count("E-queries", max(0, len(ans) - 2))
+        run.note_case(l.split(" A=")[0] + l.split(" T ")[-1], True)
+    if lines:
+        run.sample({"case": (lines[0].split(" A=")[0] + " ... T " + lines[0].split(" T ")[1])[:300], "impl": impl[0][:200]})
+    bad = sorted(set(crashes) | set(spec))[:3]
+    bad += [i for i in tie if i not in bad][:max(1, 3 - len(bad))] if tie else []
+    for i in bad:
+        e2e_report(run, exe, lines[i], i)
+
+
 def check(run):
     run.trusted += ["modelled, not verified: realloc (one oracle answer per call), libc qsort (insertion sort in the "
                     "model; file windows are disjoint so the order is unique), memset",
@@ -214,6 +305,19 @@ def check(run):
         return
     if run.replay_path:
         rp = core.json.load(open(run.replay_path))
+        if rp["replay"].get("engine") == "pmap":
+            exe2 = run.need_cc("pmap_drv", "pmap_drv.c", sources=core.lib_sources())
+            if exe2 is None:
+                return
+            head = e2e_case(run, rp["replay"]["index"]).partition(" | ")[0]
+            line = head + " | " + rp["replay"]["ops"]
+            model, impl, crashes, spec, tie = e2e_run(run, exe2, [line], "one")
+            print("model:          " + model[0][:600])
+            print("implementation: " + impl[0][:600])
+            print("spec verdict:   " + spec.get(0, "ok"))
+            if crashes or spec or tie:
+                e2e_report(run, exe2, line, rp["replay"]["index"])
+            return
         line = rp["replay"]["case"]
         model, impl, crashes, spec = run_both(run, exe, [line], "one")
         print("model:          " + model[0])
@@ -269,3 +373,5 @@ def check(run):
             report(run, exe, part[i])
         if len(run.violations) > 3:
             break
+    if len(run.violations) <= 3:
+        e2e_stage(run)
